@@ -46,6 +46,25 @@ failures:  a read() whose input or tag_filter raises part-way, a qread() of a tr
            on the same object: the exception must propagate and the object must be consistent
            (unchanged, or a line-prefix collection / the new collection: spec ReadFails / QReadFails;
            negative controls NonAtomicRead, NonAtomicQread -> TLC reports Inverse violated).
+faults of caller-supplied objects (notes/SIZE_STRESS.md part 5, hardening after seed C20-K): insert(pkg, source)
+           with a tag source of the caller -- generator, iterator object, re-iterable object, map() over a function
+           that raises, itertools.chain, an object whose copy() raises too -- that hands over the first k of n names
+           (k = 0, 1, middle, n-1, n; known and new names, some twice) and then raises OSError / ValueError / KeyError
+           / RuntimeError / a private exception class is an ORDINARY step of the histories in both legs (spec:
+           InsertFails / IInsertFails, EDGE insert_fails in the replayed LTS: every transition is also taken AFTER
+           such a failed call, through views, on copies, in the walks; TraceDebtags: "insert_fail"): an exception
+           (type unspecified: today AttributeError from tags.copy()) comes out and the object is unchanged -- or
+           holds the package consistently with a prefix of the names handed over (tolerated like the line prefix
+           of a failed read; IInsertFailsAllowed) -- and the history continues: later calls, the watched object,
+           kept derivations, fresh reads.  Negative control NonAtomicInsert (tag index updated while the source is
+           consumed, db[pkg] bound afterwards) -> TLC reports Inverse violated.  In domain: the statement is about
+           EVERY sequence of inserts, and a call that raised is a call of the sequence; what the statement fixes is
+           only that the indexes stay mutually inverse and agree with the reference relation afterwards.
+           qread() also gets file objects that RAISE OSError part-way (not only truncated ones); predicates of
+           filter_* raising at their n-th call, choose_packages(iterable that raises after n names), qwrite() /
+           dump() / dump_reverse() to a writer whose n-th write() raises are probes of the recorded histories.
+           OUT of domain (diagnostic sample): a SET (subclass) whose own iteration raises -- tags.copy() works,
+           db[pkg] is bound, the walk stops half-way: a hostile object rather than a failing source.
 API surface (notes/API_SURFACE.md) -- every public way of loading, querying, deriving and writing;
 R = replay of TLC's LTS, T = recorded traces validated by TLC, S = size-stress replay, X = cross-object
 differential at the end of replayed behaviours; all in the quick tier on rotating samples, variants
@@ -77,6 +96,8 @@ are mixed inside one history (the variant is drawn per call):
   DB.dump(), output(db), DB.dump_reverse()/dumpReverse() then read   R T S  (actions DumpRead / DumpReverseRead:
                                                                         keys without pairs are not written)
   DB.insert(pkg, tags) positional / keyword                          R T
+  DB.insert(pkg, <source of the caller raising after k names>)       R T    (insert_fails / "insert_fail": 6 shapes x 5
+                                                                        exception types x k; see "faults")
   DB.copy, reverse_copy/reverseCopy, reverse                         R T S  (+ retained source, kept aside)
   reverse() as a view: inserts through the view / the view of the    R T    (watched original, 'back', family "view":
     view, original used again, derivations repeated around it           see "sharing")
@@ -94,6 +115,8 @@ are mixed inside one history (the variant is drawn per call):
   correlations(), ideal_tagset / idealTagset                         X      (same answers on a second object
                                                                         loaded through another entry point)
   failing read()/qread()/other raising calls                         R T S  (see "failures")
+  qread(file raising OSError), filter_*(predicate raising at call    R T / T (qread_fail raises=True; probes pred_raises_at,
+    n), choose_packages*(faulting iterable), qwrite/dump(failing fd)    choose_faulting, qwrite_fails, dump_fails)
   dunder protocols (len, in, iter, ==)                               not defined by DB
 known finding: a replayed behaviour that diverges from the (deviation-off) model is recorded as a
            trace and handed to TLC with DEV=1 -- only while C20-insert-chars is open.  If TLC
@@ -111,7 +134,7 @@ from lts import LTS
 
 MANIFEST = dict(
     technique="TLA+ spec (Debtags: reference relation (P,T,R) + implementation layer db/rdb with every DB method transcribed) model-checked closed by TLC; complete reference LTS replayed into debtags.DB; recorded histories validated by TLC (TraceDebtags); named deviation for the open known finding",
-    text="TLC explores the closed state space of the two-layer model (3 packages of length 1/2/3 x 3 tags in 2 facets, reads with and without tag filter, inserts, reverse, copies, choose/filter derivations, facet collection; thorough: 4 packages) and checks in every reachable state that the two dictionaries are mutually inverse, refine the reference relation and that the query operators agree with it; with the named deviation InsertNewTagStoresChars switched on TLC reports Inverse violated (negative control). The source of every copy()/reverse_copy() is kept as a second observed object with explicit identities of shared set objects: it stays inverse and unchanged whatever is done to the copy (negative control ShallowCopy: TLC reports SourceInverse violated). Binding is two-way: every transition of the reference LTS plus random walks are replayed into the real DB class (all method variants: _copy forms, reverse/reverse_copy, copy/pickle) comparing both projected pair sets, key sets and all query methods with TLC's expected state, and the retained source of the last copy with the state it was copied in; histories recorded from the real class with up to 30 packages and arbitrary names are validated by TLC. Failing calls are part of the histories (read() whose input or tag_filter raises part-way, qread() of a truncated pickle, other raising calls): the exception must propagate and the object stay consistent (negative controls NonAtomicRead / NonAtomicQread). Derivations are also taken and kept aside while the same object is re-read (read / qread) and derived from again (negative control ReverseViewCached); every method is also called through its deprecated camelCase alias on several live objects (negative control AliasBoundToFirstObject). reverse() is a view: the original of a view is watched while inserts go through the view (and the view while the original is used again), it must show the reverse collection for every size of the indexes including empty ones (negative control ViewReplacesEmptyIndex); every in-place transition of the LTS is taken through a view with a derivation of the original taken before and again afterwards; restrictions that take few of many names out (totals around 64..1000, a dropped sole carrier of a tag) are replayed as blow-ups of TLC's abstract cases; inputs go through every kind of file object (short-read streams, decompressing wrappers, unbuffered and spooled files) with line ends aligned at 2^k offsets. Names are stressed by characters (non-NFC twins, case hazards, non-BMP, format characters) in both legs and by size in the replay leg (stretched names up to 4 KiB; blow-ups of abstract behaviours to 10 000 packages / 1 000 tags a package). Divergences exactly explained by the known finding C20-insert-chars are counted as KNOWN-FINDING by TLC re-validating the history with the deviation-on operators; anything else is a violation.",
+    text="TLC explores the closed state space of the two-layer model (3 packages of length 1/2/3 x 3 tags in 2 facets, reads with and without tag filter, inserts, reverse, copies, choose/filter derivations, facet collection; thorough: 4 packages) and checks in every reachable state that the two dictionaries are mutually inverse, refine the reference relation and that the query operators agree with it; with the named deviation InsertNewTagStoresChars switched on TLC reports Inverse violated (negative control). The source of every copy()/reverse_copy() is kept as a second observed object with explicit identities of shared set objects: it stays inverse and unchanged whatever is done to the copy (negative control ShallowCopy: TLC reports SourceInverse violated). Binding is two-way: every transition of the reference LTS plus random walks are replayed into the real DB class (all method variants: _copy forms, reverse/reverse_copy, copy/pickle) comparing both projected pair sets, key sets and all query methods with TLC's expected state, and the retained source of the last copy with the state it was copied in; histories recorded from the real class with up to 30 packages and arbitrary names are validated by TLC. Failing calls are part of the histories (read() whose input or tag_filter raises part-way, qread() of a truncated pickle or from a file object that raises, insert() whose caller-supplied tag source raises after handing over k names -- generators, iterator objects, map/chain, five exception types --, other raising calls): the exception must propagate and the object stay consistent (negative controls NonAtomicRead / NonAtomicQread / NonAtomicInsert). Derivations are also taken and kept aside while the same object is re-read (read / qread) and derived from again (negative control ReverseViewCached); every method is also called through its deprecated camelCase alias on several live objects (negative control AliasBoundToFirstObject). reverse() is a view: the original of a view is watched while inserts go through the view (and the view while the original is used again), it must show the reverse collection for every size of the indexes including empty ones (negative control ViewReplacesEmptyIndex); every in-place transition of the LTS is taken through a view with a derivation of the original taken before and again afterwards; restrictions that take few of many names out (totals around 64..1000, a dropped sole carrier of a tag) are replayed as blow-ups of TLC's abstract cases; inputs go through every kind of file object (short-read streams, decompressing wrappers, unbuffered and spooled files) with line ends aligned at 2^k offsets. Names are stressed by characters (non-NFC twins, case hazards, non-BMP, format characters) in both legs and by size in the replay leg (stretched names up to 4 KiB; blow-ups of abstract behaviours to 10 000 packages / 1 000 tags a package). Divergences exactly explained by the known finding C20-insert-chars are counted as KNOWN-FINDING by TLC re-validating the history with the deviation-on operators; anything else is a violation.",
     note="Small-scope: model constants 3 (4) packages x 3 tags; concretization of names is sampled. Domain: fresh package names for insert, each package on one line for read, facet_collection on facet::name tags, one current object plus ONE watched object: the source of the last copy()/reverse_copy(), the original of a reverse() view (must follow the view) or the source of a set-sharing restriction (unchanged until an insert may reach a shared set; what it shows afterwards is unspecified: the docstrings say 'sharing'); the model watches a source for 2 further calls, the binding until the next retained derivation. Unicode whitespace inside names is excluded (parse_tags treats it as format whitespace); size stress runs only on behaviours without insert/facet_collection (no known deviation there) and is judged against the blow-up of TLC's abstract expectation. Trusted: TLC, the projections of DB.db/DB.rdb, the concretizer. Corrupted control traces must be rejected in every run.",
     design="5 (C20)")
 
@@ -329,6 +352,129 @@ class _text_input(object):
         return False
 
 
+class _Fault(Exception):
+    """a private exception class of the caller"""
+
+
+# notes/SIZE_STRESS.md part 5: objects the CALLER supplies fail at one particular step
+FAULT_EXC = {"OSError": OSError, "ValueError": ValueError, "KeyError": KeyError, "private": _Fault, "RuntimeError": RuntimeError}
+FAULT_EXCS = tuple(sorted(FAULT_EXC))
+# shapes of a tag source that hands over some names and then raises: generator, iterator object, re-iterable
+# object, map() over a function that raises for one element, itertools.chain ending in a faulting part, an
+# object whose copy() raises as well
+FAULT_SHAPES = ("gen", "gen", "iter", "iterable", "map", "chain", "copyfails")
+
+
+def faulting_source(items, shape, excn):
+    """an iterable that hands over `items` (in this order) and then raises FAULT_EXC[excn] instead of ending"""
+    exc = FAULT_EXC[excn]
+    items = list(items)
+
+    def gen():
+        for x in items:
+            yield x
+        raise exc("injected failure of the caller's tag source")
+    if shape == "gen":
+        return gen()
+    if shape == "chain":
+        import itertools
+        return itertools.chain(items[:len(items) // 2], (x for x in items[len(items) // 2:]), gen_empty(exc))
+    if shape == "map":
+        end = object()
+
+        def f(x):
+            if x is end:
+                raise exc("injected failure of the caller's function")
+            return x
+        return map(f, items + [end])
+    if shape == "iter":
+        class It(object):
+            def __init__(self):
+                self.i = 0
+
+            def __iter__(self):
+                return self
+
+            def __next__(self):
+                if self.i >= len(items):
+                    raise exc("injected failure of the caller's iterator")
+                self.i += 1
+                return items[self.i - 1]
+        return It()
+
+    class Source(object):          # re-iterable: every pass fails at the same place
+        def __iter__(self):
+            return gen()
+
+        def __len__(self):
+            return len(items) + 1
+    if shape == "copyfails":
+        Source.copy = lambda self: (_ for _ in ()).throw(exc("injected failure of the caller's copy()"))
+    return Source()
+
+
+def gen_empty(exc):
+    raise exc("injected failure of the caller's tag source")
+    yield None           # pragma: no cover (makes this a generator)
+
+
+class _FlakyReader(object):
+    """a binary file object whose read()/readline() raise OSError once `cut` bytes were handed out (an I/O
+    error instead of the early EOF of a truncated file)"""
+
+    def __init__(self, data, cut):
+        self._f = io.BytesIO(data[:cut])
+
+    def read(self, n=-1):
+        b = self._f.read(n)
+        if n is None or n < 0 or len(b) < n:
+            raise OSError("injected read failure")
+        return b
+
+    def readline(self):
+        b = self._f.readline()
+        if not b.endswith(b"\n"):
+            raise OSError("injected read failure")
+        return b
+
+    def close(self):
+        pass
+
+    def __enter__(self):
+        return self
+
+    def __exit__(self, *exc):
+        return False
+
+
+class _FlakyWriter(object):
+    """a file object whose k-th write() raises (k = 0: the first one)"""
+
+    def __init__(self, k):
+        self.k, self.n = k, 0
+
+    def write(self, data):
+        self.n += 1
+        if self.n > self.k:
+            raise OSError("injected write failure")
+        return len(data)
+
+    def flush(self):
+        pass
+
+
+def raises_at(k, pred=lambda x: True):
+    """a caller-supplied predicate / key function that raises at its k-th call"""
+    calls = [0]
+
+    def f(x):
+        calls[0] += 1
+        if calls[0] == k:
+            raise _Fault("injected failure of the caller's function at call %d" % k)
+        return pred(x)
+    return f
+
+
 def do_call(cur, st):
     """one public call on the current object; returns (new current object, exception name or '')"""
     from debian import debtags
@@ -399,6 +545,14 @@ def do_call(cur, st):
             else:
                 cur.insert(st["a"], set(st["s"]))
             return cur, ""
+        if op == "insert_fail":                         # the caller's tag source raises after st["k"] names
+            items = [t for t in st["seq"][:st["k"]] for _ in range(st.get("dup", 1))]
+            src = faulting_source(items, st.get("shape", "gen"), st.get("excn", "OSError"))
+            if kw:
+                cur.insert(pkg=st["a"], tags=src)
+            else:
+                cur.insert(st["a"], src)
+            return cur, ""
         if op == "reverse":
             return cur.reverse(), ""
         if op == "reverse_copy":
@@ -463,7 +617,7 @@ def do_call(cur, st):
                 cut = int(st["cutfrac"] * first)
             else:
                 cut = first + int(st["cutfrac"] * (len(data) - first))
-            with _bin_reader(st.get("via", ""), data[:cut]) as f:
+            with (_FlakyReader(data, cut) if st.get("raises") else _bin_reader(st.get("via", ""), data[:cut])) as f:
                 cur.qread(f)
             return cur, ""
         if op == "probe":                             # calls expected to raise; the result is dropped
@@ -480,6 +634,19 @@ def do_call(cur, st):
                 cur.choose_packages(None)
             elif w == "read_none":
                 cur.read(None)
+            # caller-supplied predicates / iterables / writers failing at their n-th step (the result is dropped)
+            elif w == "pred_raises_at":
+                m = meth(cur, st["method"], al)
+                m(raises_at(st["n"]))
+            elif w == "choose_faulting":
+                keys = sorted(cur.db)[:st["n"]] if isinstance(cur.db, dict) else []
+                meth(cur, st["method"], al)(faulting_source(keys, st.get("shape", "gen"), st.get("excn", "OSError")))
+            elif w == "qwrite_fails":
+                cur.qwrite(_FlakyWriter(st["n"]))
+            elif w == "dump_fails":
+                import contextlib
+                with contextlib.redirect_stdout(_FlakyWriter(st["n"])):
+                    (cur.dump if st["n"] % 2 else meth(cur, "dump_reverse", al))()
             return cur, ""
         S = set(st["s"])
         if op == "choose":
@@ -567,7 +734,7 @@ def enc_dict(d):
 
 
 COPY_OPS = ("copy", "reverse_copy", "pickle", "dumpread", "dumprevread")
-FAIL_OPS = ("read_fail", "qread_fail", "probe")
+FAIL_OPS = ("read_fail", "qread_fail", "probe", "insert_fail")
 # derivations whose SOURCE may be retained as the watched object (TraceDebtags: CopyFormOps / ShareOps / reverse)
 COPYFORM_OPS = ("filter_p_copy", "filter_pt_copy", "filter_t_copy")       # "with a copy of the tagsets"
 SHARE_OPS = ("choose", "choose_copy", "filter_p", "filter_pt", "filter_t")  # share set objects with their source
@@ -624,6 +791,10 @@ def event_of(st, exc, db, rdb, answers=None, source=None, current=None, sact="sa
     elif op == "insert":
         e["a"] = enc(st["a"])
         e["s"] = enc_set(st["s"])
+    elif op == "insert_fail":
+        e["a"] = enc(st["a"])
+        e["seq"] = [enc(t) for t in st["seq"]]
+        e["k"] = st["k"]
     elif op == "read_fail":
         e["lines"] = [{"pkgs": enc_set(p), "tags": enc_set(t)} for p, t in st["lines"]]
         e["drop"] = []
@@ -716,6 +887,11 @@ def describe(st):
                                  " [via %s%s]" % (st.get("via", "iter"), ", keywords" if st.get("kw") else "") if st.get("via") or st.get("kw") else "")
     if op == "insert":
         return "insert(%r, %r)" % (st["a"], sorted(st["s"]))
+    if op == "insert_fail":
+        return "insert(%r, <%s handing over %s and then raising %s>)" % (
+            st["a"], {"gen": "generator", "iter": "iterator object", "iterable": "re-iterable object", "map": "map() over a function",
+                      "chain": "itertools.chain", "copyfails": "iterable whose copy() raises too"}.get(st.get("shape", "gen"), st.get("shape")),
+            short([t for t in st["seq"][:st["k"]] for _ in range(st.get("dup", 1))], 200), st.get("excn", "OSError"))
     if op == "qread":
         return "qread(pickle of %r)" % "".join(st["text"])
     if op == "qs":
@@ -729,9 +905,10 @@ def describe(st):
         return "read(%r) FAILING %s" % ("".join(st["text"]), "in the input after %d lines" % st["m"] if st["mode"] == "source"
                                         else "in tag_filter at its call %d" % st["fcall"])
     if op == "qread_fail":
-        return "qread(pickle of %r truncated in the %s pickle)" % ("".join(st["text"]), "first" if st["k"] == 0 else "second")
+        return "qread(pickle of %r %s in the %s pickle)" % ("".join(st["text"]), "from a file object raising OSError" if st.get("raises") else "truncated",
+                                                           "first" if st["k"] == 0 else "second")
     if op == "probe":
-        return "probe %s" % st["what"]
+        return "probe %s%s" % (st["what"], "".join(" %s=%r" % (k, st[k]) for k in ("method", "n", "shape", "excn") if k in st))
     if op == "q":
         return "queries"
     name = (ALIAS.get({"facet": "facet_collection", "choose": "choose_packages", "choose_copy": "choose_packages_copy",
@@ -830,6 +1007,12 @@ def concretize_step(e, conc, rng, junk):
         return st
     if op == "insert":
         return {"op": "insert", "a": conc.name(e["a"]), "s": sorted(conc.names(e["s"])), "kw": rng.random() < 0.3}
+    if op == "insert_fails":
+        # the caller's tag source hands over the first k names of TLC's sequence (some of them more than once:
+        # a source need not be duplicate-free) and then raises
+        return {"op": "insert_fail", "a": conc.name(e["a"]), "seq": [conc.name(t) for t in e["seq"]], "k": e["k"],
+                "shape": rng.choice(FAULT_SHAPES), "excn": rng.choice(FAULT_EXCS), "dup": rng.choice((1, 1, 1, 2, 3)),
+                "kw": rng.random() < 0.3}
     if op in ("dumpread", "dumprevread"):
         return {"op": op, "via": rng.choice(["dump", "output", "lines"]), "alias": rng.random() < 0.5}
     if op in ("read_fails", "qread_fails"):
@@ -838,7 +1021,8 @@ def concretize_step(e, conc, rng, junk):
         text = ["%s: %s\n" % (", ".join(p), ", ".join(t)) if t else "%s\n" % ", ".join(p) for p, t in glines]
         k = e["k"]
         if op == "qread_fails":
-            return {"op": "qread_fail", "text": text, "lines": glines, "k": k, "cutfrac": rng.random(), "via": rng.choice(QREAD_VIAS)}
+            return {"op": "qread_fail", "text": text, "lines": glines, "k": k, "cutfrac": rng.random(), "via": rng.choice(QREAD_VIAS),
+                    "raises": rng.random() < 0.3}
         st = {"op": "read_fail", "text": text, "lines": glines, "k": k, "m": k, "mode": "source", "fcall": 0, "want": "OSError"}
         if k < len(glines) and glines[k][1] and rng.random() < 0.5:
             st.update(mode="filter", fcall=1 + sum(len(t) for _, t in glines[:k]), want="ValueError")
@@ -946,7 +1130,7 @@ def view_link(link, st):
     the call st: 'rev' (the current object is the reverse view), 'same' (the view of the view), None (no
     dictionary is shared any more: read()/qread() bind new ones, every other derivation builds new ones)"""
     op = st["op"]
-    if st.get("keep") or op in ("insert", "read_fail", "qread_fail", "probe", "back"):
+    if st.get("keep") or op in ("insert", "read_fail", "qread_fail", "probe", "back", "insert_fail"):
         return link
     if op == "reverse":
         return {"rev": "same", "same": "rev"}.get(link, "rev")       # nothing watched: the original is retained
@@ -1011,7 +1195,7 @@ def replay_path(plan, exp, conc, rng, junk, deep):
             cur, vsrc, exc = vsrc, cur, ""
         else:
             cur, exc = do_call(cur, st)
-        if st["op"] in ("read_fail", "qread_fail"):
+        if st["op"] in ("read_fail", "qread_fail", "insert_fail"):
             if (exc != st["want"]) if st["op"] == "read_fail" else (not exc):
                 return i, where + "expected the injected exception to propagate, got %r" % (exc or "no exception")
             m = compare_state(cur, x["to"], conc)
@@ -1035,7 +1219,7 @@ def replay_path(plan, exp, conc, rng, junk, deep):
         if st["op"] in SHARE_OPS and psrc is None and x.get("rto") is not None:
             psrc, pexp, pstep = before, x, i + 1
         m = compare_state(cur, x["to"], conc)
-        touched = st["op"] in ("insert", "back", "reverse", "read_fail", "qread_fail", "probe") or i == n - 1
+        touched = st["op"] in ("insert", "back", "reverse", "read_fail", "qread_fail", "probe", "insert_fail") or i == n - 1
         if m is None and vsrc is not None and x.get("rto") is not None and touched:
             who = "the ORIGINAL of the reverse() view taken in step %d does not show what was done through %s: " % (
                 vstep, "the view" if vlink == "rev" else "the view of the view")
@@ -1383,6 +1567,19 @@ def corrupt(t, how):
         if how == "fail-swallowed" and e["op"] == "read_fail":
             e["exc"] = ""
             return {"events": evs[:i + 1]}
+        if how == "insert-fail-swallowed" and e["op"] == "insert_fail" and e["exc"] and e["seq"]:
+            e["exc"] = ""
+            return {"events": evs[:i + 1]}
+        if how == "insert-fail-indexed" and e["op"] == "insert_fail" and e["k"] >= 1 and e["exc"] \
+                and all(k[0] != e["a"] for k in e["db"]) and all(e["a"] not in k[1] for k in e["rdb"]):
+            # the package is listed under the first name the source handed over, without an entry of its own
+            t = e["seq"][0]
+            hit = [k for k in e["rdb"] if k[0] == t]
+            if hit:
+                hit[0][1] = sorted(hit[0][1] + [e["a"]])
+            else:
+                e["rdb"] = sorted(e["rdb"] + [[t, [e["a"]]]])
+            return {"events": evs[:i + 1]}
         if how == "extra-key" and e["op"] != "q" and not e["exc"]:
             e["db"] = e["db"] + [[[0x7a, 0x7a, 0x7a, 0x7a], []]]
             return {"events": evs[:i + 1]}
@@ -1391,7 +1588,8 @@ def corrupt(t, how):
 
 def make_controls(traces):
     out = []
-    for how in ("drop-member", "card", "fake-dev", "exc", "extra-key", "source-changed", "view-stale", "fail-partial", "fail-swallowed"):
+    for how in ("drop-member", "card", "fake-dev", "exc", "extra-key", "source-changed", "view-stale", "fail-partial", "fail-swallowed",
+                "insert-fail-swallowed", "insert-fail-indexed"):
         for t in traces:
             c = corrupt(t, how)
             if c:
@@ -1576,7 +1774,8 @@ def record_history(rng, nops, maxpk, many=0):
         step({"op": "read", "text": text, "lines": glines, "drop": sorted(drop), "usefilter": bool(drop) or rng.random() < 0.3})
     ops = (["insert"] * 8 + ["reverse", "reverse_copy", "copy", "pickle", "choose", "choose_copy", "filter_p",
            "filter_p_copy", "filter_pt", "filter_pt_copy", "filter_t", "filter_t_copy", "facet", "q", "q", "q",
-           "read_fail", "read_fail", "qread_fail", "probe", "reread", "reread", "qs", "dumpread", "dumprevread",
+           "read_fail", "read_fail", "qread_fail", "probe", "probe", "reread", "reread", "qs", "dumpread", "dumprevread",
+           "insert_fail", "insert_fail", "insert_fail",
            "reverse", "reverse", "back", "back", "back", "again", "again", "again"])
     if many:
         ops += ["filter_p", "filter_p_copy", "filter_pt", "filter_pt_copy", "filter_t", "filter_t_copy", "choose"] * 2
@@ -1684,10 +1883,43 @@ def record_history(rng, nops, maxpk, many=0):
                 step({"op": "read_fail", "text": text, "lines": glines, "k": sum(isrec[:m]), "m": m, "mode": "source", "fcall": 0, "want": "OSError"})
         elif op == "qread_fail":
             glines, text, _ = some_lines()
-            step({"op": "qread_fail", "text": text, "lines": glines, "k": rng.randint(0, 1), "cutfrac": rng.random(), "via": rng.choice(QREAD_VIAS)})
+            step({"op": "qread_fail", "text": text, "lines": glines, "k": rng.randint(0, 1), "cutfrac": rng.random(), "via": rng.choice(QREAD_VIAS),
+                  "raises": rng.random() < 0.3})
+        elif op == "insert_fail":
+            # insert(fresh package, tag source of the caller that raises after k of its n names): known and new
+            # names of the kind the collection uses, n heavy-tailed (0, 1, 2, 3, 9..11, 16, 17, 31..33, 100), the
+            # fault at the first, second, a middle, the last name and at the very end
+            p = keys_like()
+            if p is None:
+                continue
+            pool = vals_pool()
+            n = rng.choice((0, 1, 1, 2, 2, 2, 3, 3, 3, 4, 5, 9, 10, 11, 16, 17, 31, 32, 33, 100))
+            seq = rng.sample(rkeys, min(len(rkeys), rng.randint(0, 3))) if rkeys else []
+            seq += [t for t in rng.sample(pool, min(len(pool), 3)) if t not in seq]
+            i = 0
+            while len(seq) < n:
+                t = ("%s::w%d" % (rng.choice(facets), i)) if not (flipped or faceted) else "w%d%s" % (i, rname(rng, 0, 3, alpha))
+                i += 1
+                if t not in seq:
+                    seq.append(t)
+            rng.shuffle(seq)
+            seq = seq[:n]
+            k = rng.choice((0, 1, 1, n // 2, max(0, n - 1), max(0, n - 1), n, n))
+            step({"op": "insert_fail", "a": p, "seq": seq, "k": min(k, n), "shape": rng.choice(FAULT_SHAPES), "excn": rng.choice(FAULT_EXCS),
+                  "dup": rng.choice((1, 1, 1, 2)), "kw": rng.random() < 0.25})
         elif op == "probe":
-            what = rng.choice(["insert_none", "insert_int", "filter_raises", "filter_tags_raises", "choose_none", "read_none"])
-            step({"op": "probe", "what": what, "a": rname(rng, 2, 5, alpha)})
+            what = rng.choice(["insert_none", "insert_int", "filter_raises", "filter_tags_raises", "choose_none", "read_none",
+                               "pred_raises_at", "pred_raises_at", "pred_raises_at", "choose_faulting", "choose_faulting", "qwrite_fails", "dump_fails"])
+            st = {"op": "probe", "what": what, "a": rname(rng, 2, 5, alpha), "alias": al}
+            if what == "pred_raises_at":      # a predicate of the caller raising at its 1st, 2nd, a later call
+                st.update(method=rng.choice(["filter_packages", "filter_packages_copy", "filter_packages_tags", "filter_packages_tags_copy",
+                                             "filter_tags", "filter_tags_copy"]), n=rng.choice((1, 1, 2, 3, max(1, len(keys)), max(1, len(rkeys)))))
+            elif what == "choose_faulting":   # choose_packages(iterable of present names that raises after n of them)
+                st.update(method=rng.choice(["choose_packages", "choose_packages_copy"]), n=rng.choice((0, 1, 1, 2, max(0, len(keys) - 1), len(keys))),
+                          shape=rng.choice(FAULT_SHAPES), excn=rng.choice(FAULT_EXCS))
+            elif what in ("qwrite_fails", "dump_fails"):
+                st.update(n=rng.choice((0, 0, 1, 2, 3)))
+            step(st)
         elif op == "q":
             probe = rng.sample(keys, min(len(keys), 4)) + rng.sample(rkeys, min(len(rkeys), 4)) + [rname(rng, 1, 4, alpha)]
             step({"op": "q", "names": probe, "alias": al})
@@ -1738,6 +1970,35 @@ def sharing_diagnostics(ctx):
                           "still mutually inverse" if fwd == bwd else "no longer mutually inverse: %r" % (sorted(fwd ^ bwd),)))
         except Exception as e:
             ctx.sample("diagnostic: %s raised %s" % (what, type(e).__name__))
+
+
+def fault_diagnostics(ctx):
+    """insert(pkg, tags) where `tags` IS a set (a subclass) or has a working copy(), but ITERATING it raises: today
+    tags.copy() succeeds (C level, or the caller's copy()), db[pkg] is bound and the walk over the tags stops half-way.
+    A set whose iteration fails is a hostile object rather than a failing source: diagnostic sample (reported to the
+    lead), never a verdict."""
+    from debian import debtags
+
+    class HalfSet(set):
+        def __iter__(self):
+            for i, x in enumerate(sorted(set.__iter__(self))):
+                if i == 1:
+                    raise OSError("injected")
+                yield x
+    try:
+        d = debtags.DB()
+        d.read(iter(["p: fg::h\n", "ab: fg::h, j::h\n"]))
+        exc = ""
+        try:
+            d.insert("x", HalfSet({"fg::h", "j::h"}))
+        except Exception as e:
+            exc = type(e).__name__
+        fwd, bwd = pairs(d.db), {(p_, t) for t, p_ in pairs(d.rdb)}
+        ctx.sample("diagnostic (hostile object, reported to the lead): insert('x', <set subclass whose __iter__ raises after one tag>) "
+                   "raised %s; the collection is %s" % (exc or "nothing", "still mutually inverse" if fwd == bwd
+                                                        else "no longer mutually inverse: %r" % (sorted(fwd ^ bwd),)))
+    except Exception as e:
+        ctx.sample("diagnostic: insert of a set subclass with a failing __iter__ raised %s" % type(e).__name__)
 
 
 def load_lts(ctx, cfg):
@@ -1794,6 +2055,7 @@ def run(ctx):
         "model constants: packages p/ab/cdc (lengths 1,2,3) x tags fg::h fg::i j::h (thorough: also 4 packages, no LTS); closed state space: histories of any length over these names",
         "domain: insert gets a fresh package name; read gets each package on one line; facet_collection on facet::name tags; choose_packages_copy gets present packages (the rest is executed, any outcome accepted)",
         "a read()/qread() that raises part-way and other raising calls are part of a history: the exception must propagate and the object must stay consistent (unchanged or a line-prefix / the new collection; which one is unspecified)",
+        "insert(pkg, source) with a caller-supplied tag source that raises after k names: some exception comes out (type unspecified) and the object is unchanged, or holds the package consistently with a prefix of the names handed over; a set (subclass) whose own iteration raises is out of domain (diagnostic sample)",
         "one current object per history plus one watched object: the source of the last copy()/reverse_copy()/pickle round trip (must stay unchanged), the original of a reverse() view (must follow what is done through the view) or the source of a set-sharing restriction (unchanged until an insert may reach a shared set, then unspecified)",
         "concretization of names is sampled (seeded); trusted: TLC, the projection of DB.db/DB.rdb, the concretizer",
         "known finding %s is %s: divergences TLC explains with the deviation-on operators are %s"
@@ -1815,6 +2077,7 @@ def run(ctx):
     f_rv = bg("MC_Debtags_rview.cfg", 1)        # negative control: remembered reverse view survives read() -> Refines violated
     f_ab = bg("MC_Debtags_alias.cfg", 1)        # negative control: alias bound to the first object -> AliasQueriesAgree violated
     f_vw = bg("MC_Debtags_view.cfg", 1)         # negative control: reverse() replaces an EMPTY index by a private dict -> Source* violated
+    f_if = bg("MC_Debtags_insfail.cfg", 1)      # negative control: insert() updates rdb while consuming a source that raises -> Inverse violated
     if quick:
         f_closed = None            # the 3 x 3 closed configuration belongs to the thorough tier (budget)
         f_big = None
@@ -1831,7 +2094,7 @@ def run(ctx):
                               ("shallow", f_sh, ("SourceInverse", "SourceRefines")), ("dev", f_dev, ("Inverse",)),
                               ("nonatomic", f_na, ("Inverse",)), ("qread", f_nq, ("Inverse",)),
                               ("rview", f_rv, ("Refines",)), ("alias", f_ab, ("AliasQueriesAgree",)),
-                              ("view", f_vw, ("SourceRefines", "SourceInverse"))):
+                              ("view", f_vw, ("SourceRefines", "SourceInverse")), ("insfail", f_if, ("Inverse",))):
             if f is None:
                 continue
             r = f.result()
@@ -1900,7 +2163,7 @@ def run(ctx):
             diverged.append((case, d[1], {"events": events}))
 
     copy_edge = {k: [x for x in outs if x["op"] == "copy"][0] for k, outs in g.out.items()}
-    fail_edges = {k: [x for x in outs if x["op"] in ("read_fails", "qread_fails")] for k, outs in g.out.items()}
+    fail_edges = {k: [x for x in outs if x["op"] in ("read_fails", "qread_fails", "insert_fails")] for k, outs in g.out.items()}
     read_edges = {k: [x for x in outs if x["op"] == "read"] for k, outs in g.out.items()}
     by_op = {k: {} for k in g.out}
     for k, outs in g.out.items():
@@ -1920,7 +2183,7 @@ def run(ctx):
         if nviol[0] >= 5:
             break
         # thorough: the 33 000 restrict/filter transitions of the 3x3 LTS get one of the two forms each
-        if e["op"] in ("restrict_p", "filter_t", "read_fails", "qread_fails"):
+        if e["op"] in ("restrict_p", "filter_t", "read_fails", "qread_fails", "insert_fails"):
             reps = (idx % 2,) if not quick else ((1,) if idx % 2 else (0, 1))
         else:
             reps = range(nconc)
@@ -1931,7 +2194,8 @@ def run(ctx):
                 # the same transition taken on a COPY of the collection: its source must not notice
                 path = paths[e["_f"]] + [copy_edge[e["_f"]], e]
             elif c == 1 and e["op"] not in ("read_fails", "qread_fails"):
-                # ... and taken after a read()/qread() that FAILED on this object and was caught
+                # ... and taken after a read()/qread()/insert() that FAILED on this object and was caught
+                # (also a failing insert after another failed call)
                 fe = fail_edges[e["_f"]]
                 path = paths[e["_f"]] + [fe[(idx // 2) % len(fe)], e]
             one(path, conc, False, "edge")
@@ -1951,7 +2215,7 @@ def run(ctx):
         # (selection only: transitions that will meet the open known finding -- a multi-character name inserted
         # under a key new to the other index -- are thinned, each of them costs a TLC-judged trace)
         devprone = e["op"] == "insert" and len(e["a"]) > 1 and any(t not in e["from"]["T"] for t in e["s"])
-        if e["op"] in ("insert", "read_fails", "qread_fails") and (idx % 8 == 0 if e["op"] != "insert" else (not devprone or idx % 4 == 0)) \
+        if e["op"] in ("insert", "read_fails", "qread_fails", "insert_fails") and (idx % 8 == 0 if e["op"] != "insert" else (not devprone or idx % 4 == 0)) \
                 and ((idx + ctx.seed) % 2 == 0 if quick else idx % 3 == 0):
             o = rev_of[e["_f"]]["_t"]                   # the original: its reverse() view shows e's start state
             if rev_of[o]["_t"] == e["_f"]:
@@ -1981,11 +2245,12 @@ def run(ctx):
     # 2b. random walks from DB() (long histories; queries checked after every call)
     nwalks, wlen = (160, 12) if quick else (600, 25)
     w8 = {"insert": 6, "read": 2, "reverse": 3, "copy": 1, "facet": 3, "restrict_p": 1, "filter_t": 1,
-          "read_fails": 2, "qread_fails": 2, "dumpread": 2, "dumprevread": 2}
+          "read_fails": 2, "qread_fails": 2, "dumpread": 2, "dumprevread": 2, "insert_fails": 3}
     for w in range(nwalks):
         if nviol[0] >= 5:
             break
-        path = g.walk(rng, g.init, wlen, weight=lambda x: w8[x["op"]] * (3 if x["_f"] != x["_t"] or x["op"].endswith("_fails") else 1))
+        path = g.walk(rng, g.init, wlen, weight=lambda x: w8[x["op"]] * (3 if x["_f"] != x["_t"] or x["op"].endswith("_fails") else 1)
+                      * (0.25 if x["op"] == "insert_fails" and not x["k"] else 1))
         one(path, concs[w % len(concs)], True, "walk")
         ctx.case_seen(("walk", w), True)
     # 2b'. size stress through the replay leg: blown-up concretizations of abstract behaviours
@@ -2042,6 +2307,7 @@ def run(ctx):
     ctx.extra["threshold_cases"] = {"n": len(thr), "sole_carrier": sum(1 for w in thr if w["sole_carrier"]),
                                     "totals": sorted({w["total"] for w in thr}), "sample": thr[:3]}
     sharing_diagnostics(ctx)
+    fault_diagnostics(ctx)
     ctx.extra["behaviours_replayed"] = n_replayed
     ctx.extra["replayed_last_call_per_method"] = called
     ctx.extra["behaviours_diverged"] = len(diverged)
@@ -2060,7 +2326,8 @@ def run(ctx):
                                           "NonAtomicQread=TRUE -> TLC: invariant %s violated" % design["qread"].violated,
                                           "ReverseViewCached=TRUE -> TLC: invariant %s violated" % design["rview"].violated,
                                           "AliasBoundToFirstObject=TRUE -> TLC: invariant %s violated" % design["alias"].violated,
-                                          "ViewReplacesEmptyIndex=TRUE -> TLC: invariant %s violated" % design["view"].violated]
+                                          "ViewReplacesEmptyIndex=TRUE -> TLC: invariant %s violated" % design["view"].violated,
+                                          "NonAtomicInsert=TRUE -> TLC: invariant %s violated" % design["insfail"].violated]
     hits = 0
     if diverged:
         traces = [t for _, _, t in diverged]
